@@ -298,6 +298,9 @@ pub struct ReqLog {
     pub abort_sent: Option<u8>,
     /// 06 50 only: dangling pre-authorisations still open in the ledger when it arrived.
     pub open_dangling_at_arrival: Vec<u16>,
+    /// Part of the handshake that vets a connection (the Registration and the identity request that
+    /// follows it on the same connection), not of the public call during which it happened.
+    pub handshake: bool,
 }
 
 #[derive(Clone, Debug)]
@@ -473,6 +476,8 @@ pub struct PtConn {
     st: St,
     point: u16,
     silent: bool,
+    /// A Registration was just answered on this connection: the next 0F A1 is the identity check of the handshake.
+    expect_identity: bool,
     close_when_idle: bool,
     /// Closed cleanly between two exchanges: later frames go nowhere (no anomaly: the client cannot know).
     closed_idle: bool,
@@ -486,6 +491,7 @@ impl PtConn {
             st: St::Idle,
             point: 0,
             silent: false,
+            expect_identity: false,
             close_when_idle: false,
             closed_idle: false,
         }
@@ -755,9 +761,9 @@ impl PtConn {
                 out.push(plain(rc::completion_with(Some(0x10), Some(tid), pkt_currency(pkt))));
             }
             (0x0f, 0xa1) => {
-                let o = pt.q.sysinfo.pop_front().unwrap_or(EndSpec::Completion);
-                // the first two 0F A1 on a connection belong to handshake + configure; only
-                // the queue decides aborts
+                // the identity check of a handshake is answered truthfully (faults on it come from the
+                // fault plan: WrongSerial, IdentityAbort); planned aborts are for configure's own request
+                let o = if pt.requests[req].handshake { EndSpec::Completion } else { pt.q.sysinfo.pop_front().unwrap_or(EndSpec::Completion) };
                 match o {
                     EndSpec::Abort(c) => out.push(plain(rc::abort(c, rc::AbortExtra::None))),
                     EndSpec::Completion => {
@@ -1105,9 +1111,10 @@ impl PtConn {
                 }
             }
             _ => {
-                // a command the model does not know: answered like a real PT would (unknown -> 84 83)
-                out = vec![plain(rc::nack(0x83))];
-                completes = false;
+                // a command the model has no script for (status enquiry, diagnosis, ...): acknowledged
+                // and completed, as most ZVT commands are - a change that adds a harmless exchange must
+                // not lose its connection to the simulator's ignorance
+                out.push(plain(rc::completion()));
             }
         }
         if let Some(last) = out.last() {
@@ -1211,6 +1218,7 @@ impl Terminal for PtConn {
                     dangling_reported: None,
                     abort_sent: None,
                     open_dangling_at_arrival: vec![],
+                    handshake: false,
                 });
                 let msg = format!("frame {} on a connection after its failure", crate::conn::hex(&frame));
                 pt.anomalies.push((seq, self.conn, msg));
@@ -1276,21 +1284,26 @@ impl Terminal for PtConn {
                     dangling_reported: None,
                     abort_sent: None,
                     open_dangling_at_arrival: vec![],
+                    handshake: false,
                 });
-                pt.requests.len() - 1
+                let n = pt.requests.len() - 1;
+                // handshake frames: a Registration, and the identity request that follows it
+                let hs = cf == (0x06, 0x00) || (cf == (0x0f, 0xa1) && self.expect_identity);
+                self.expect_identity = cf == (0x06, 0x00);
+                pt.requests[n].handshake = hs;
+                n
             };
             match pkt {
                 Err(e) => {
-                    self.anomaly(io, format!("undecodable command {}: {e}", crate::conn::hex(&frame)));
-                    let nack = Emit {
-                        frame: rc::nack(0x9a),
-                        delay_ms: 0,
-                        identity: false,
-                        effect: Effect::None,
-                    };
-                    if !self.emit(io, &nack, cf, true) {
-                        self.st = St::Dead;
-                    }
+                    // a frame the reference codec has no layout for: noted (the oracles that need the
+                    // decoded request will say so), acknowledged and completed like an unknown command
+                    io.note(format!("command {} not decodable by the reference codec: {e}", crate::conn::hex(&frame[..frame.len().min(16)])));
+                    let script: VecDeque<Emit> = vec![
+                        Emit { frame: rc::ACK.to_vec(), delay_ms: 0, identity: false, effect: Effect::None },
+                        Emit { frame: rc::completion(), delay_ms: 0, identity: false, effect: Effect::None },
+                    ]
+                    .into();
+                    self.advance(io, script, req, true, cf, true);
                 }
                 Ok(p) => {
                     let (script, completes) = self.script(&p, req);
